@@ -1,15 +1,49 @@
 """Manifest wording per property: level text, trusted base note, technique."""
 HOOK_COMMITS = []
 
-BASE_NOTE = ("Trusted: Lean 4 kernel; axioms propext, Classical.choice, Quot.sound only (audited per theorem on every run); "
-             "tools/extract (Go->Lean expression translator and fact extractor); the correspondence harness, driver and projection "
-             "(differential: agreement is shown only on executed runs). Modelled, not verified: unsafe pointer arithmetic, reflect "
-             "copies, byte layout, GC, Go memory model; uint32 generation wrap-around excluded by hypothesis.")
+BASE_NOTE = ("Trusted: Lean 4 kernel; axioms propext, Classical.choice, Quot.sound only (audited per theorem on every run; "
+             "`decide +kernel` is kernel evaluation, no native code); tools/extract (Go->Lean expression translator and fact "
+             "extractor) with its shape expectations; the correspondence harness, driver and projection (differential: agreement "
+             "is shown only on executed runs). Modelled, not verified: unsafe pointer arithmetic, reflect copies, byte layout, "
+             "GC, Go memory model, slice aliasing/pointer invalidation on re-allocation; uint32 generation wrap-around and "
+             "tables beyond 2^32 rows excluded by hypothesis.")
+
+CORR = (" The hand-written model is tied to /repo on every run by (1) definitions regenerated from the Go source and proved equal "
+        "to the model's for all inputs and (2) the correspondence check: the real ecs package and the model's executable "
+        "definitions run the same generated operation histories and the property's projection of the traces must agree.")
+
+def T(level, technique, note=BASE_NOTE):
+    return {"level": level + CORR, "note": note, "technique": technique}
 
 TEXT = {
- "C02": {
-  "level": "Machine-checked proof (Lean 4, kernel-only axioms) over ALL histories of pool operations of any length and any recycle order: the free-list invariant of the entity pool, freshness of every returned handle, exactness of Alive for every issued handle, dead-stays-dead, count = creations - removals, and that Reset kills the handles of the previous epoch. The model's pool code is tied to pool.go by the correspondence check (raw handles, Alive of issued handles and Stats are compared on generated histories).",
-  "note": BASE_NOTE,
-  "technique": "Lean 4 proof: invariant by induction over operation histories (ghost issued/live sets) + model/implementation correspondence on generated histories",
- },
+ "C01": T("Proved (Lean 4) for tables of any size and any history of table operations: write/read round trip with frame, swap-remove moves only the last row, growth/shrink/bulk moves preserve every row in use, table shape invariant reachable. PARTIAL at world level: the entity-index <-> row bijection across tables (step_refines) is not yet proved; it is covered by the correspondence check on all API paths.",
+          "Lean 4 proof of table-level invariants and frame lemmas + regenerated Extend condition + model/implementation correspondence"),
+ "C02": T("Proved over ALL histories of pool operations of any length and recycle order: free-list invariant, freshness of every returned handle, exact Alive for every issued handle, dead-stays-dead, count = creations - removals, Reset kills the previous epoch's handles.",
+          "Lean 4 proof: invariant by induction over operation histories with ghost issued/live sets + correspondence on raw handles"),
+ "C03": T("Proved for all masks/filters: the model's filter test equals the regenerated filter.matches and has the documented set-level meaning (with/without/exclusive); the per-target table lookup is complete and duplicate-free under the index invariant. PARTIAL: the cursor machine's drain = selected rows theorem is not yet proved; iteration, Count and EntityAt are compared with the model and checked for internal consistency (no duplicates, Count = visits, EntityAt = visit order) on generated histories.",
+          "Lean 4 proof of selection logic over regenerated definitions + index-lookup completeness + correspondence and self-checks on query results"),
+ "C04": T("Proved: the per-archetype relation index invariant (exactly the active tables per target, no stale entries) is preserved by table registration, recycling, the Shrink free path, and the free-all-then-drop-key pattern of target cleanup; freeing alone (the repaired defect D1) provably breaks it. PARTIAL: the world-level statement (targets zero-or-alive in every reachable state) relies on the correspondence check.",
+          "Lean 4 proof of index invariants for every index mutation + correspondence on relation targets and relation queries"),
+ "C05": T("Proved: slice and index map of tableIDs (the cached table lists) stay in step under append and swap-remove for all inputs; lookup completeness of the uncached path. PARTIAL: equality of cached and uncached selections in every reachable state (I11) is checked by correspondence with twin registered/unregistered filters, not yet proved.",
+          "Lean 4 proof of tableIDs well-formedness + correspondence on cached vs. uncached queries"),
+ "C07": T("Proved over ALL histories of lock/unlock/reset: the lock mask equals the set of outstanding bits, a new lock is fresh, locking succeeds iff fewer than 64 are outstanding, unlock succeeds iff the bit is outstanding, unlocked exactly when all are returned; every structural operation of the model on a locked world panics and returns the identical state; regenerated fact: checkLocked() is the first statement of all structural entry points.",
+          "Lean 4 proof: lock-bit machine invariant by induction over histories + per-operation locked=>unchanged + extracted lock-first facts + correspondence"),
+ "C08": T("Proved for ALL masks, all observer specifications and all register/unregister orders: each per-observer predicate equals the documented firing rule (Spec.fires), the union-based early-outs never suppress an observer that should fire (under the aggregate invariant, itself preserved by add/remove/reset), hence the set of callbacks is independent of which other observers are registered; predicates and early-outs are proved equal to the ones regenerated from events.go on every run.",
+          "Lean 4 proof over regenerated observer predicates (decision logic stated outright) + aggregate invariant + correspondence on callback multisets"),
+ "C10": T("Proved: every checked single-entity operation of the model on a dead handle, with no components/relations, with a present/missing component, or on a locked world returns panic with exactly the state it was called on; regenerated facts decided in Lean: every Entity-taking method of all arities checks Alive (or delegates to a checked core) before its first index read, and every structural entry point checks the lock first.",
+          "Lean 4 proof of rejection-without-effect + decided extracted API-surface facts + correspondence with stale handles"),
+ "C11": T("Proved for all table histories: the zero-tail invariant (every cell outside a live row is zero, also in free/recycled tables) is preserved by add/alloc/remove/reset/addAll/adjustCapacity/shrink, so a component added without value reads zero; values survive moves/growth/shrink. PARTIAL: write barriers, GC liveness and unsafe addressing are runtime behaviour outside any Lean model; pointer-bearing components are exercised with self-checking payloads by the harness only.",
+          "Lean 4 proof of the table shape/zero-tail invariant + correspondence with uninitialised adds and self-checking pointer payloads"),
+ "C12": T("Proved: the regenerated list of map-range sites equals the two loops of archetype.FreeTable, whose effect is pointwise per key (order independent); the model is a function of the history. PARTIAL: cross-process equality of the implementation is observed (same op file in several processes), not proved.",
+          "Decided extracted fact (map ranges) + order-independence lemma + repeated-execution comparison"),
+ "C15": T("Proved: Shrink decisions equal the regenerated Go conditions; shrinking changes no row in use, yields len <= cap <= max(initial, capPow2 len) per table, is idempotent per table (convergence), keeps the table shape and the relation index invariants when freeing empty tables, and is rejected on a locked world. PARTIAL: the whole-world abstraction-unchanged statement relies on correspondence.",
+          "Lean 4 proof over regenerated shrink conditions + table/index invariants + correspondence (snapshots and queries after Shrink)"),
+ "C16": T("Proved: the observer-reset loop (regenerated bound) visits every registered event type for all 256 types; the pool after Reset equals the initial pool (same future handles) and no old handle is alive; lock cleared; aggregates invariant holds after reset. PARTIAL: equivalence of all later histories with a fresh world relies on correspondence.",
+          "Lean 4 proof over regenerated loop bound + pool/lock/observer reset lemmas + correspondence after Reset"),
+ "C17": T("Proved for all 64-bit (id, generation) pairs and all byte strings: binary round trip, AppendBinary, rejection exactly of lengths != 8, injectivity, JSON array round trip (kernel-only bit-vector proofs); dump/load: loading the dump of any pool into an empty world gives the same Alive answers for every handle of the source epoch and the same handles for any number of subsequent creations.",
+          "Lean 4 proof: bit-vector round trips + pool determinism through the monadic LoadEntities model + correspondence on dump/load"),
+ "C18": T("Proved: for EVERY registered count 0..256 the regenerated toTypes index arithmetic stays inside the mask words and enumerates exactly IDs 0..n-1 (kernel evaluation over the whole finite table), so component lists are the ascending set bits; registration is sequential, full/locked registration panics without consuming an ID; resources behave as a partial map.",
+          "Lean 4 proof by exhaustive kernel evaluation over regenerated arithmetic + registry lemmas + correspondence with registries filled to the limit"),
+ "C19": T("Proved for all worlds and all earlier statistics objects compatible with the world's archetype prefix: the incrementally updated statistics equal the fresh computation (any old table-list length), along any history of Stats calls; internal consistency of all figures (sums, products, used+recycled=total).",
+          "Lean 4 proof: incremental = fresh by list algebra + history induction + correspondence on the Stats structure"),
 }
